@@ -374,10 +374,16 @@ def check(rep: Report, ctx: Ctx) -> None:
     cols = [c for c in sch.models["NodeModel"].columns if c != "id"]
     for col in cols:
         v = kw(ctor[0], col)
-        core = v.values[0] if isinstance(v, ast.BoolOp) and isinstance(
-            v.op, ast.Or) and col == "parent_event_id" else v
-        ok = isinstance(core, ast.Attribute) and core.attr == col \
-            and isinstance(core.value, ast.Name) and core.value.id == p
+        if col == "parent_event_id" and not isinstance(v, ast.Attribute):
+            # a normalising expression over the span's own parent id: a real
+            # id is stored unchanged (three-point domain of rules/optval.py)
+            from . import optval
+            ok = optval.table(v, f"{p}.{col}")[2] == "s" and {
+                unparse(a) for a in ast.walk(v)
+                if isinstance(a, ast.Attribute)} == {f"{p}.{col}"}
+        else:
+            ok = isinstance(v, ast.Attribute) and v.attr == col \
+                and isinstance(v.value, ast.Name) and v.value.id == p
         rep.ob("R10.7", f"nodes.{col} <- span.{col}", ok, fi=conv,
                node=ctor[0], detail=f"{col} = {unparse(v)}")
     for fn, obj in ((ctx.func("SQLDataHolder.add_node_relations"),
@@ -398,57 +404,125 @@ def check(rep: Report, ctx: Ctx) -> None:
                detail=unparse(dicts[0])[:100] if dicts else "<missing>")
         gs = cguards(ctx, fn, dicts[0]) if dicts else []
         subj = f"{fn.params()[1]}.parent_event_id"
-        truthy = ("truth", subj, "1")
-        notnone = ("cmp", subj, "IsNot", "None")
-        okg = gs in ([truthy], [notnone])
+        from . import optval as _ov
+        tests = _tests_at(ctx, fn, dicts[0]) if dicts else []
+        # a span with a real parent id always gets its link; a span without
+        # a parent (None) never does
+        okg = bool(tests) and _ov.holds(tests, subj, "s") and \
+            not _ov.holds(tests, subj, None)
         rep.ob("R10.7", f"{fn.short}: only root spans have no link", okg,
                fi=fn, node=dicts[0] if dicts else fn.node,
                detail=f"link queued under {[' '.join(g) for g in gs]}")
-        # a link row is queued exactly for the spans stored as non-roots:
-        # the record stores `parent or None` (every falsy parent id, e.g. the
-        # OTLP/JSON "" of a root span, becomes NULL), so a guard on the *raw*
-        # span must be the same truthiness test -- `is not None` would queue
-        # a link ('' -> root) for a span stored as a root, and the cleaning
-        # step would delete that well-formed trace for a missing parent ''.
-        pv = kw(ctor[0], "parent_event_id")
-        normalising = isinstance(pv, ast.BoolOp) and isinstance(pv.op, ast.Or)
-        raw_subject = fn.name == "add_node_relations"
-        if okg and raw_subject:
-            agree = not (normalising and gs == [notnone])
-            rep.ob("R10.7", f"{fn.short}: a link is queued exactly when the "
-                   "stored record has a parent", agree, fi=fn, node=dicts[0],
-                   detail=f"record stores parent_event_id = {unparse(pv)}; "
-                          f"link guard {' '.join(gs[0])}"
-                          + ("" if agree else
-                             " -- a span with an empty-string parent id is "
-                             "stored as a root and still gets a link row "
-                             "to a parent that cannot exist"))
+    root_classification(rep, ctx, "R10.7")
 
 
 def link_root_agreement(rep: Report, ctx: Ctx, rule: str) -> None:
-    """(shared with C11)  The ingestion path queues a parent link for a raw
-    span exactly when the record it stores for that span has a parent."""
+    """(shared with C11 / C12)"""
+    root_classification(rep, ctx, rule)
+
+
+def _tests_at(ctx: Ctx, fn: FuncInfo, node: ast.AST
+              ) -> list[tuple[ast.AST, bool]]:
+    cfg = ctx.cfg(fn)
+    nid = cfg.node(node) if cfg.has(node) else cfg.container(node)
+    if nid is None:
+        raise AnalysisError(f"{fn.qualname}: no CFG node for the link")
+    return cfg.controlling(nid)
+
+
+def root_classification(rep: Report, ctx: Ctx, rule: str) -> None:
+    """Every site that decides "does this span have a parent?" gives the
+    same answer for each kind of parent id a span can carry -- None, the
+    empty string (what OTLP/JSON exporters write for a root) and a real id.
+    The sites: the value the record stores (NULL = root for every SQL
+    reader: root pages, job names, the streamed tree), the guard under which
+    the ingestion path queues a link row for the raw span, the guard of the
+    link rebuild from stored records, and every Python reader of a stored
+    parent id.  Evaluated on the three-point domain of rules/optval.py."""
+    from . import optval
     conv = ctx.func("convert_otel_event_to_node_model")
-    fn = ctx.func("SQLDataHolder.add_node_relations")
     ctor = [c for c in ast.walk(conv.node) if isinstance(c, ast.Call)
             and call_name(c) == "NodeModel"]
-    dicts = [d for d in ast.walk(fn.node) if isinstance(d, ast.Dict)]
-    if len(ctor) != 1 or len(dicts) != 1:
-        raise AnalysisError("record / link construction not found")
+    add = ctx.func("SQLDataHolder.add_node_relations")
+    reb = ctx.func("SQLDataHolder._update_node_relations_from_node")
+    if len(ctor) != 1:
+        raise AnalysisError("record construction not found")
     pv = kw(ctor[0], "parent_event_id")
-    normalising = isinstance(pv, ast.BoolOp) and isinstance(pv.op, ast.Or)
-    gs = cguards(ctx, fn, dicts[0])
-    subj = f"{fn.params()[1]}.parent_event_id"
-    agree = not (normalising and gs == [("cmp", subj, "IsNot", "None")])
+    if pv is None:
+        raise AnalysisError("NodeModel(... parent_event_id=...) not found")
+    stored = optval.table(pv, f"{conv.params()[0]}.parent_event_id")
+    # -- the raw link guard
+    d_add = [d for d in ast.walk(add.node) if isinstance(d, ast.Dict)]
+    d_reb = [d for d in ast.walk(reb.node) if isinstance(d, ast.Dict)]
+    if len(d_add) != 1 or len(d_reb) != 1:
+        raise AnalysisError("link construction not found")
+    subj_add = f"{add.params()[1]}.parent_event_id"
+    t_add = _tests_at(ctx, add, d_add[0])
+    link = tuple(optval.holds(t_add, subj_add, v) for v in optval.POINTS)
+    has_parent = tuple(v is not None and v != "!" for v in stored)
+    ok = link == has_parent and "!" not in stored
     rep.ob(rule, "a link row is queued exactly when the stored record has a "
-           "parent", agree, fi=fn, node=dicts[0],
-           detail=f"record stores parent_event_id = {unparse(pv)}; link "
-                  f"guard {[' '.join(g) for g in gs]}"
-                  + ("" if agree else
-                     " -- a root span exported with an empty-string parent "
-                     "id is stored as a root and still gets a link row; the "
-                     "dangling-parent cleaning then deletes its whole, "
-                     "well-formed trace"))
+           "parent", ok, fi=add, node=d_add[0],
+           detail=f"stored parent_event_id = {unparse(pv)}: "
+                  f"{optval.show(stored)}; link queued: "
+                  f"{optval.show(link)}"
+                  + ("" if ok else " -- for the differing kind of parent id "
+                     "the link table and the nodes table disagree on whether "
+                     "the span is a root: either a root gets a link to a "
+                     "parent that cannot exist (cleaning deletes its "
+                     "well-formed trace), or a span stored with a parent has "
+                     "no link and is not a root for any reader (its trace "
+                     "keeps its per-span names and is streamed in pieces)"))
+    # -- the rebuild guard sees STORED values
+    subj_reb = f"{reb.params()[1]}.parent_event_id"
+    t_reb = _tests_at(ctx, reb, d_reb[0])
+    okr = all(v == "!" or optval.holds(t_reb, subj_reb, v) == (v is not None)
+              for v in stored)
+    rep.ob(rule, "the link rebuild after a duplicate agrees with the stored "
+           "record", okr, fi=reb, node=d_reb[0],
+           detail="guards " + ", ".join(
+               ("" if s_ else "not ") + unparse(t)[:50] for t, s_ in t_reb)
+           + f" on stored values {sorted(set(map(repr, stored)))}")
+    # -- every other reader of a (stored) parent id
+    n = 0
+    bad = []
+    for fi in ctx.index.all_functions():
+        if "otel_to_pv" not in fi.module.relpath or fi.qualname in (
+                conv.qualname, add.qualname):
+            continue
+        for t in ast.walk(fi.node):
+            tests: list[ast.AST] = []
+            if isinstance(t, (ast.If, ast.While, ast.IfExp)):
+                tests = [t.test]
+            elif isinstance(t, ast.comprehension):
+                tests = list(t.ifs)
+            for test in tests:
+                for sub in ast.walk(test):
+                    subj = None
+                    if isinstance(sub, ast.Attribute) and \
+                            sub.attr == "parent_event_id" and isinstance(
+                                sub.value, ast.Name):
+                        subj = unparse(sub)
+                        break
+                if subj is None:
+                    continue
+                # a membership / lookup test on the id is not a root test
+                try:
+                    vals = [bool(optval.ev(test, subj, v)) for v in stored
+                            if v != "!"]
+                except (AnalysisError, optval.Raises):
+                    continue
+                n += 1
+                want = [v is None for v in stored if v != "!"]
+                if vals != want and vals != [not w for w in want]:
+                    bad.append((fi, test))
+    rep.ob(rule, "every reader of a stored parent id separates exactly the "
+           "records stored without a parent", not bad and n >= 3,
+           fi=bad[0][0] if bad else conv, node=bad[0][1] if bad else ctor[0],
+           detail=f"{n} root tests on stored parent ids"
+                  + ("; disagrees: " + "; ".join(
+                      f"{f.short}: {unparse(t)[:50]}" for f, t in bad)
+                     if bad else ""))
 
 
 def _handler_names(h: ast.ExceptHandler) -> set[str]:
